@@ -238,6 +238,22 @@ def stmt_seeds(dialect):
         t, u, v = tabs()
         return QQ.from_(t).delete().where(t.a == 1)
 
+    def sel_lits():
+        # python constants of every kind through the builder's own wrapper class (select list) and the generic one (criteria)
+        import datetime
+
+        t, u, v = tabs()
+        return (QQ.from_(t).select(True, False, 1.5, None, datetime.date(2020, 1, 2), T.ValueWrapper("a\\b'c")).select(t.a)
+                .where(t.flag == True).where(t.s == "q\\")  # noqa: E712
+                .where(t.d.isin([False, 2])))
+
+    def upd_lits():
+        import decimal
+
+        t, u, v = tabs()
+        return QQ.update(t).set(t.a, True).set(t.b, False).set("c", decimal.Decimal("1.10")).set("j", {"k": "a\\b"}).where(t.ok == False)  # noqa: E712
+
+    S.update(sel_lits=sel_lits, upd_lits=upd_lits)
     S.update(empty=empty, sel_min=sel_min, sel_full=sel_full, sel_rollup=sel_rollup, sel_star=sel_star,
              sel_nested=sel_nested, ins=ins, ins_conf=ins_conf, ins_nothing=ins_nothing, ins_sel=ins_sel, upd=upd,
              upd_join=upd_join, upd_from=upd_from, dele=dele)
